@@ -564,8 +564,10 @@ class Master(rpu.AgentComponent):
             # check worker heartbeats
             now  = time.time()
             lost = set()
-            for uid in self._workers:
-                for rank, hb in self._workers[uid]['heartbeats'].items():
+            # NOTE: workers register (control thread) and get submitted (main
+            #       thread) while we check: iterate over snapshots
+            for uid in list(self._workers):
+                for rank, hb in list(self._workers[uid]['heartbeats'].items()):
                     if hb < now - self._hb_tout:
                         self._log.warn('lost rank %d on worker %s', rank, uid)
                         lost.add(uid)
